@@ -906,6 +906,7 @@ structure J16 where
   prod : Option Cfg := none
   prodAcks : Int := 1
   prodTimeout : Int := 30000
+  consRetryLimit : Int := 0
   out : List String := []
 
 def judgeC16 (ops : List OpRec) : List String :=
@@ -927,7 +928,7 @@ def judgeC16 (ops : List OpRec) : List String :=
           -- in force on the wire already during creation: client id in every header
           let s := reqs.foldl (fun s (_, r) => if r.header.clientId == some want.clientId then s
             else v s "C16-client-id-not-in-force" op s!"header client id {repr r.header.clientId}, configured {toHexTok want.clientId}") s
-          { s with cons := some want }
+          { s with cons := some want, consRetryLimit := ((lastOpt opts "retrylimit").bind (·.toInt?)).getD 0 }
         else s
     | "producer_create" :: from_ :: opts =>
       let base : Cfg := if from_ == "client" then s.client else {}
@@ -960,7 +961,8 @@ def judgeC16 (ops : List OpRec) : List String :=
           | .fetch _ mw mb ts =>
             let s := if mw == want.maxWait && mb == want.minBytes then s else v s "C16-fetch-settings" op s!"max_wait {mw} min_bytes {mb}, configured {want.maxWait} {want.minBytes}"
             let s := if r.header.clientId == some want.clientId then s else v s "C16-client-id-not-in-force" op "fetch header"
-            if ts.all fun (_, ps) => ps.all fun p => p.maxBytes == want.maxBytes then s else v s "C16-fetch-max-bytes" op s!"configured {want.maxBytes}"
+            -- (with a retry limit above the fetch size a partition may rightly be asked with more: C17's subject)
+            if s.consRetryLimit > want.maxBytes || (ts.all fun (_, ps) => ps.all fun p => p.maxBytes == want.maxBytes) then s else v s "C16-fetch-max-bytes" op s!"configured {want.maxBytes}"
           | _ => s) s
       | none => s
     | "send_all" :: _ =>
@@ -1039,6 +1041,11 @@ def judgeC07 (ops : List OpRec) : List String :=
         else if want.any (·.2.isNone) then v s "C07-created-without-offset" op "creation succeeded although no start offset can be determined for a partition"
         else { s with expect := want.filterMap (fun (x : (Bytes × Int) × Option Int) => x.2.map fun o => (x.1, o)), pending := true }
       else { s with pending := false }
+    | ["seek", t, p, _] =>
+      -- the application moved the partition itself: its first fetch is no longer the start offset's business
+      (match fromHex t, p.toInt? with
+       | some t, some p => if op.result == "ok" then { s with expect := s.expect.filter fun (e : (Bytes × Int) × Int) => e.1 != (t, p) } else s
+       | _, _ => s)
     | ["poll"] =>
       if !s.pending then s else
       let got : List ((Bytes × Int) × Int) := (framesOf op).flatMap fun (x : Bytes × Request) => match x.2.body with
@@ -1181,6 +1188,7 @@ def judgeC05 (ops : List OpRec) : List String :=
         if unknown then
           let s := if op.result == "err Kafka(3)" then s else viol s "C05-unknown-not-rejected" op s!"result `{op.result}`"
           if reqs.isEmpty then s else viol s "C05-sent-before-failing" op "bytes were sent although a record names an unknown topic or partition"
+        else if op.result == "err Codec" && reqs.isEmpty then s   -- a request that cannot be encoded (C09's subject): nothing was sent
         else
           -- expected: per (leader host, topic, partition) the records in input order
           let keys : List (Bytes × Int) := pas.foldl (fun (acc : List (Bytes × Int)) (a : Model.ProduceArg) => if acc.contains (a.topic, a.partition) then acc else acc ++ [(a.topic, a.partition)]) []
@@ -1914,7 +1922,7 @@ def judge (prop : String) (lines : List String) : List String :=
   -- fetch responses are part of "the content the broker sent": client level as in C02, consumer level as in C01
   -- (everything the brokers' replies carried is handed out, whatever the shape of another broker's reply)
   | "C10" => judgeC10 ops ++ ((judgeC02 ops).map fun (l : String) => l.replace "C02-" "C10-fetch-")
-      ++ ((judgeC01 ops).map fun (l : String) => l.replace "C01-" "C10-poll-")
+      ++ (((judgeC01 ops).filter fun (l : String) => (l.splitOn "C01-undelivered").length == 1).map fun (l : String) => l.replace "C01-" "C10-poll-")
   | "C11" => judgeC11 ops
   | "C14" => judgeC14 ops
   | "C20" => judgeC20 ops
